@@ -17,6 +17,8 @@ func Run(c *fw.Ctx) {
 	c.Cases("closed.shift.wrapper", c.N(1500, 20000), func(cs *fw.Case) { withShift(cs, cs.Index, func() { runClosedWrapper(cs, cs.R) }) })
 	c.Cases("closed.shift.vector", c.N(2500, 30000), func(cs *fw.Case) { withShift(cs, cs.Index, func() { runClosedMvn(cs, cs.R) }) })
 	c.Cases("closed.shift.matrix", c.N(1000, 12000), func(cs *fw.Case) { withShift(cs, cs.Index, func() { runClosedMatrixId(cs, cs.R) }) })
+	// estimator reuse histories (same object, several data sets)
+	c.Cases("closed.reuse", c.N(3000, 40000), func(cs *fw.Case) { runClosedReuse(cs, cs.R) })
 	c.Cases("numeric", c.N(900, 12000), func(cs *fw.Case) { runNumeric(cs, cs.R) })
 	// (b) EM trajectories
 	c.Cases("em.mixture.scalar", c.N(2400, 40000), func(cs *fw.Case) { runEmScalarMixture(cs, cs.R) })
